@@ -93,3 +93,63 @@ func VerifC03Tokens2()         { verifC03Tokens(2, false) }
 func VerifC03Tokens3()         { verifC03Tokens(3, false) }
 func VerifC03Tokens4()         { verifC03Tokens(4, false) }
 func VerifC03Tokens3Indented() { verifC03Tokens(3, true) }
+
+// vC03Prefixes: openings of the statement and declaration forms of the grammar; the symbolic
+// tokens continue them on the next, indented line (or on the same line).
+var vC03Prefixes = []string{
+	"Wir nennen die Kombination aus\n\tder Zahl x mit Standardwert 0,\n",
+	"Wir nennen die Kombination aus\n",
+	"Die Funktion f mit dem Parameter a vom Typ Zahl, gibt eine Zahl zurück, macht:\n",
+	"Die Funktion f gibt nichts zurück, macht:\n\tGib nichts zurück.\nUnd kann so benutzt werden:\n",
+	"Wenn wahr, dann:\n",
+	"Die Zahl x ist 1.\nFür jede Zahl i von 1 bis 3, mache:\n",
+	"Solange wahr, mache:\n",
+	"Wir definieren einen Meter als",
+	"Die Zahl x ist",
+	"Die Zahlen Liste l ist eine Liste, die aus 1,",
+	"Der Text t ist \"a\".\nSpeichere 'b' in t an der Stelle",
+}
+
+// verifC03AfterPrefix: the whole frontend on a concrete opening followed by k tokens of symbolic
+// kind: no internal crash, and it finishes (a path that exhausts the instruction budget is
+// replayed natively with a time limit).
+func verifC03AfterPrefix(k int) {
+	prefix := vC03Prefixes[rt.Choose("prefix", len(vC03Prefixes))]
+	var d vDiag
+	s, err := scanner.New("x.ddp", []byte(prefix), d.handler, scanner.ModeStrictCapitalization)
+	if err != nil {
+		rt.Assert(false, "the opening is valid UTF-8")
+		return
+	}
+	toks := s.ScanAll()
+	toks = toks[:len(toks)-1] // without EOF
+	last := toks[len(toks)-1]
+	newLine := prefix[len(prefix)-1] == '\n'
+	line := last.Range.End.Line
+	col := last.Range.End.Column + 1
+	indent := uint(0)
+	if newLine {
+		line, col, indent = line+1, 2, 1
+	}
+	for i := 0; i < k; i++ {
+		typ := rt.Int("type")
+		rt.Assume(rt.And(typ > int(token.EOF), typ <= int(token.ELIPSIS)))
+		rt.Assume(rt.And(typ != int(token.COMMENT), typ != int(token.ALIAS_PARAMETER)))
+		t := token.Token{Type: token.TokenType(typ), Literal: "x", Indent: indent,
+			Range: token.Range{Start: token.Position{Line: line, Column: col + uint(2*i)}, End: token.Position{Line: line, Column: col + uint(2*i) + 1}}}
+		toks = append(toks, t)
+	}
+	toks = append(toks, token.Token{Type: token.EOF, Range: token.Range{Start: token.Position{Line: line + 1, Column: 1}, End: token.Position{Line: line + 1, Column: 1}}})
+	delivered := 0
+	mod, perr := Parse(Options{FileName: "x.ddp", Tokens: toks, ErrorHandler: func(ddperror.Error) { delivered++ }})
+	if perr != nil {
+		_, crashed := perr.(*ParserError)
+		rt.Assert(!crashed, "the frontend does not crash internally (ParserError)")
+		return
+	}
+	rt.Assert(mod != nil && mod.Ast != nil, "a module is returned")
+}
+
+func VerifC03AfterPrefix1() { verifC03AfterPrefix(1) }
+func VerifC03AfterPrefix2() { verifC03AfterPrefix(2) }
+func VerifC03AfterPrefix3() { verifC03AfterPrefix(3) }
